@@ -32,6 +32,7 @@ class Scheduler:
         self.finished = set()
         self.nthreads = nthreads
         self.timeout = False
+        self.parked = set()
 
     def _skip_finished(self):
         while self.idx < len(self.schedule) and self.schedule[self.idx] in self.finished:
@@ -40,7 +41,10 @@ class Scheduler:
     def yield_point(self, tag):
         with self.cv:
             self._skip_finished()
+            self.parked.add(tag)
+            self.cv.notify_all()
             ok = self.cv.wait_for(lambda: self._turn(tag), timeout=20)
+            self.parked.discard(tag)
             if not ok:
                 self.timeout = True
                 self.idx = len(self.schedule)
@@ -117,6 +121,62 @@ def serial(conns, queries, params):
     return out
 
 
+def run_with_intruder(conn_a, query_a, conn_b, query_b, when):
+    """thread A runs query_a and parks at its yield points; at its `when`-th yield point the main thread runs query_b
+    to completion (a whole foreign scan between two sub-expression evaluations of one row of A), then A goes on"""
+    sched = Scheduler(['A'] * when + ['M'] + ['A'] * 10000, 2)
+    _CURRENT['sched'] = sched
+    result = {}
+
+    def work():
+        _LOCAL.tag = 'A'
+        try:
+            cur = conn_a.execute(query_a)
+            result['a'] = proto.show_result(cur.description, cur.fetchall(), proto.Content())
+        except Exception as exc:  # noqa: BLE001
+            result['a'] = 'EXC:%s:%s' % (type(exc).__name__, exc)
+        finally:
+            _LOCAL.tag = None
+            sched.finish('A')
+    t = threading.Thread(target=work)
+    t.start()
+    with sched.cv:
+        sched.cv.wait_for(lambda: ('A' in sched.parked and sched.idx == when) or 'A' in sched.finished, timeout=30)
+    try:
+        cur = conn_b.execute(query_b)
+        result['b'] = proto.show_result(cur.description, cur.fetchall(), proto.Content())
+    except Exception as exc:  # noqa: BLE001
+        result['b'] = 'EXC:%s:%s' % (type(exc).__name__, exc)
+    sched.finish('M')
+    t.join(120)
+    _CURRENT['sched'] = None
+    return result.get('a'), result.get('b')
+
+
+def intruder_layer(ctx):
+    """a long foreign scan (several hundred balance evaluations, on another connection over another ledger) between the
+    two balance references of one row"""
+    rng = ctx.rng
+    big = ledgers.connect(*ledgers.gen_ledger(rng, ntxn=90)[1:])
+    small_text, entries, errors, options = ledgers.gen_ledger(rng, ntxn=5)
+    small = ledgers.connect(entries, errors, options)
+    qa = "SELECT balance, vp_yield('x', lineno), balance FROM #postings"
+    qb = 'SELECT account, balance FROM #postings'
+    want_a = serial([small], [qa], [None])[0]
+    want_b = serial([big], [qb], [None])[0]
+    for when in (0, 1, 3):
+        got_a, got_b = run_with_intruder(small, qa, big, qb, when)
+        ctx.evaluations += 1
+        ctx.count('intruder')
+        ctx.nontrivial_hashes.add(hash(('intruder', when, small_text)))
+        if got_a != want_a or got_b != want_b:
+            ctx.record_violation('interleaving-changes-result',
+                                 'a foreign scan of %d rows at yield point %d of %r changes a result: %r vs serial %r' % (
+                                     want_b.count(')('), when, qa, (got_a or '')[:200], want_a[:200]),
+                                 payload={'ledger': small_text, 'queries': [qa, qb], 'when': when})
+            return
+
+
 QUERIES = [
     ("SELECT balance, vp_yield('x', lineno), balance FROM #postings", None),
     ("SELECT vp_yield('x', lineno), balance FROM #postings WHERE account ~ 'Assets'", None),
@@ -136,6 +196,10 @@ QUERIES = [
     # the accounts table and the account look-up functions, also for names that were never opened
     ("SELECT account, vp_yield('x', length(account)), open FROM #accounts", None),
     ("SELECT DISTINCT parent(account), open_date(parent(account)), vp_yield('x', lineno) * 0 FROM #postings", None),
+    # a yield point inside the COMPILATION of the statement (constant arguments are folded), with parameters
+    ("SELECT account, number FROM #postings WHERE vp_yield('c', 1) = 1 AND number >= %(min)s", {'min': -1000000}),
+    ("SELECT account, number FROM #postings WHERE vp_yield('c', 1) = 1 AND number >= %(min)s", {'min': 1000000}),
+    ("SELECT account, number, %s AS tag FROM #postings WHERE vp_yield('c', 2) = 2 AND number >= %s", ('t', 0)),
 ]
 OUTPUT_PHASE = (8, 9)
 
@@ -163,6 +227,7 @@ def audit_fingerprint(conn):
 
 def run(ctx):
     register_yield()
+    intruder_layer(ctx)
     rng = ctx.rng
     nled = 4 if ctx.thorough() else 2
     for lk in range(nled):
@@ -173,7 +238,7 @@ def run(ctx):
         else:
             other = ledgers.connect(*ledgers.gen_ledger(rng, ntxn=rng.range(3, 6))[1:])    # a different ledger
         before = audit_fingerprint(shared)
-        fixed = [(0, 0), (0, 3), (8, 8), (12, 13), (10, 1), (9, 9), (3, 3), (8, 9), (0, 1), (10, 2), (11, 2), (12, 12), (13, 12)]
+        fixed = [(0, 0), (0, 3), (8, 8), (12, 13), (14, 15), (15, 16), (10, 1), (9, 9), (3, 3), (8, 9), (0, 1), (10, 2), (11, 2), (12, 12), (13, 12)]
         pairs = rng.shuffle(list(itertools.product(range(len(QUERIES)), repeat=2)))
         if not ctx.thorough():
             pairs = pairs[:12]
